@@ -5,42 +5,22 @@
   Model: Model/UeIdentity.lean (CreateUE with strconv.Atoi / fmt.Sprintf("%0*d") modelled, NewRanUeContext,
   GetAuthSubscription, GetUESecurityCapability). Go strings are byte lists; UE indices are the loop counters 0..n-1 of
   stg-utg.go.  Capability bits: Spec/Ts24501Identity.lean (TS 24.501 9.11.3.54).
+  Vocabulary (defined in Proofs/UeIdentity.lean): `DecimalImsi imsi` = non-empty decimal string of at most 18 digits;
+  `Fits imsi n` = decVal imsi + n ≤ 10^|imsi|; `MsinFits imsi p n` = p ≤ |imsi| and decVal (imsi.drop p) + n ≤ 10^(|imsi| - p),
+  i.e. the digits after the first p = 3 + |MNC| can accommodate n UEs.
 -/
 import Stgutg.Proofs.UeIdentity
 
 namespace Stgutg.Props.C16
 open Stgutg Stgutg.Model.UeIdentity Stgutg.Proofs.UeIdentity
 
-/-- the population of `n` UEs fits: the number of the last UE still has the configured number of digits -/
-def Fits (imsi : Bytes) (n : Nat) : Prop := decVal imsi + n ≤ 10 ^ imsi.length
-
-/-- the MSIN digits (what follows the first `p` = 3 + |MNC| digits) can accommodate the population -/
-def MsinFits (imsi : Bytes) (p n : Nat) : Prop :=
-  p ≤ imsi.length ∧ decVal (imsi.drop p) + n ≤ 10 ^ (imsi.length - p)
-
-/-- `"001010000000001"`, the shipped configuration -/
-def shippedImsi : Bytes := [48, 48, 49, 48, 49, 48, 48, 48, 48, 48, 48, 48, 48, 48, 49]
-
-/-- the hypotheses are satisfiable: the shipped IMSI (MNC 01, p = 5) with the full population of 10 000 UEs,
-    and an MSIN that the last of 10 000 UEs exhausts exactly (…9999990000 + 9999) -/
-example : DecimalImsi shippedImsi ∧ MsinFits shippedImsi 5 10000 ∧ Fits shippedImsi 10000 := by
+/-- the hypotheses are satisfiable: the shipped IMSI "001010000000001" (MNC 01, p = 5) with the full population of
+    10 000 UEs, and an MSIN that the last of 10 000 UEs exhausts exactly (…9999990000 + 9999) -/
+example : DecimalImsi [48, 48, 49, 48, 49, 48, 48, 48, 48, 48, 48, 48, 48, 48, 49] ∧
+    MsinFits [48, 48, 49, 48, 49, 48, 48, 48, 48, 48, 48, 48, 48, 48, 49] 5 10000 ∧
+    Fits [48, 48, 49, 48, 49, 48, 48, 48, 48, 48, 48, 48, 48, 48, 49] 10000 := by
   refine ⟨⟨by decide, by decide, by decide⟩, ⟨by decide, by decide⟩, by unfold Fits; decide⟩
 example : MsinFits [57, 57, 57, 57, 57, 57, 57, 57, 57, 57, 57, 48, 48, 48, 48] 5 10000 := ⟨by decide, by decide⟩
-
-/-- room in the MSIN is room in the whole number -/
-theorem msinFits_fits {imsi : Bytes} {p n : Nat} (h : DecimalImsi imsi) (hf : MsinFits imsi p n) : Fits imsi n := by
-  obtain ⟨hp, hf⟩ := hf
-  have hsplit : imsi = imsi.take p ++ imsi.drop p := (List.take_append_drop p imsi).symm
-  have hpre := decVal_lt (imsi.take p) (fun c hc => h.digits c (List.mem_of_mem_take hc))
-  have hlen : (imsi.drop p).length = imsi.length - p := List.length_drop
-  have hlt : (imsi.take p).length = p := by rw [List.length_take]; omega
-  unfold Fits
-  rw [hsplit, decVal_append, List.length_append, hlt, hlen, Nat.pow_add]
-  rw [hlt] at hpre
-  have : (decVal (imsi.take p) + 1) * 10 ^ (imsi.length - p) ≤ 10 ^ p * 10 ^ (imsi.length - p) :=
-    Nat.mul_le_mul_right _ hpre
-  rw [Nat.add_mul] at this
-  omega
 
 /-- **C16, distinct SUPIs.** UEs created from one configured IMSI with different indices have different SUPIs, for
     every population the digits can accommodate (whatever credentials they are given). -/
@@ -88,6 +68,16 @@ theorem C16_supi_in_plmn {imsi : Bytes} (h : DecimalImsi imsi) {p n : Nat} (hfit
     exact decW_digits _ _
   · rw [hdig, ← List.append_assoc, List.drop_left' (by rw [List.length_append, hlt, hpl]), decVal_decW,
       Nat.mod_eq_of_lt (by omega)]
+
+/-- **C16, what the network sees.** The mobile identity `RegisterUE` / `DeregisterUE` build for UE `i`
+    (`EncodeSuci(TrimPrefix(ue.Supi, "imsi-"), len(mnc))`) is read by the independent TS 24.501 decoder as the null-scheme
+    SUCI with the configured MCC and MNC and MSIN = configured MSIN + i (so distinct UEs present distinct SUCIs). -/
+theorem C16_suci_of_ue {imsi : Bytes} (h : DecimalImsi imsi) {m n : Nat} (hm : m = 2 ∨ m = 3)
+    (hlen : 3 + m < imsi.length) (hfit : MsinFits imsi (3 + m) n) {i : Nat} (hi : i < n) (k opc op : Bytes) :
+    ∃ buf, Model.Suci.encodeSuci (Model.Suci.trimImsiPrefix (createUE imsi (i : Int) k opc op).supi) (m : Int) = .ok buf ∧
+      Spec.Identity.decodeSuci buf = some (Spec.Identity.nullSchemeSuci (digitsOf (imsi.take 3))
+        (digitsOf ((imsi.drop 3).take m)) (digitsOf (decW (imsi.length - (3 + m)) (decVal (imsi.drop (3 + m)) + i)))) :=
+  suci_of_created_ue h hm hlen hfit hi k opc op
 
 /-- **C16, distinct RAN-UE-NGAP-IDs.** The ids `(imsi + i) mod 10^4` of a population of at most 10 000 UEs are
     pairwise distinct (and lie in 0..9999). -/
